@@ -24,7 +24,11 @@ SELF = {
 }
 DYNAMIC = ('_test_state', '_threads', '_start_time')
 GHOST = {'stdout': 'Stream', 'stderr': 'Stream', 'tsu': 'bool', 'bad': 'int', 'cap_out': 'Opt[Str]', 'cap_err': 'Opt[Str]',
-         'hookexc': 'bool'}      # hookexc: a per-test layer hook has raised (then the run is aborted by design)
+         'hookexc': 'bool',      # hookexc: a per-test layer hook has raised (then the run is aborted by design)
+         # C19: nsnap counts the thread snapshots taken (calls of threadsupport.enumerate()), thr_last is the latest one,
+         # nthr counts the "left new threads behind" reports
+         'nsnap': 'int', 'thr_last': 'List[Thread]', 'nthr': 'int'}
+SNAP_NOW = "G.nsnap == old(G.nsnap) + 1 and same_threads(self._threads, G.thr_last)"      # the snapshot is taken in this call
 
 B = "self.options.buffer"
 BUF = ("(self._stdout_buffer is not None and self._stderr_buffer is not None and"
@@ -212,8 +216,9 @@ START_TEST = method({
     'property': ['C05', 'C12', 'C13', 'C19'], 'params': {'test': 'Test'},
     'requires': ["not G.tsu", ORIG],
     'modifies': ['self._test_state', 'self.testsRun', 'self._threads', 'self._start_time', 'self._stdout_buffer',
-                 'self._stderr_buffer', 'G.stdout', 'G.stderr', 'G.tsu', 'G.hookexc'],
+                 'self._stderr_buffer', 'G.stdout', 'G.stderr', 'G.tsu', 'G.hookexc', 'G.nsnap', 'G.thr_last'],
     'ensures': [STARTED, TIMED, "hasattr(self, '_threads')", "G.tsu", "G.hookexc == old(G.hookexc)",
+                SNAP_NOW,                     # C19: the threads that exist when the test starts are recorded now, afresh
                 "implies(" + B + ", " + BUF + ")", "implies(not " + B + ", " + ORIG + ")",
                 "self.testsRun == old(self.testsRun) + count(test)",          # C12: testsRun adjusted by countTestCases
                 LISTS_SAME, "self.shouldStop == old(self.shouldStop)"],
@@ -293,8 +298,12 @@ ADD_SKIP = method({
     'requires': [SOK, "implies(" + STARTED + ", " + TIMED + " and hasattr(self, '_threads'))",
                  "implies(not " + STARTED + ", not G.tsu)"],
     'modifies': ['self._test_state', 'self.testsRun', 'self._threads', 'self._start_time', 'self.skipped',
-                 'G.stdout', 'G.stderr', 'G.cap_out', 'G.cap_err', 'G.tsu', 'G.hookexc'],
+                 'G.stdout', 'G.stderr', 'G.cap_out', 'G.cap_err', 'G.tsu', 'G.hookexc', 'G.nsnap', 'G.thr_last'],
     'ensures': [STARTED, TIMED, "hasattr(self, '_threads')", "G.hookexc == old(G.hookexc)",
+                # C19: a skip that arrives without startTest starts the test: its snapshot is taken now, afresh (never one left
+                # over from an earlier test); a skip inside a started test leaves the snapshot alone
+                "implies(not old(" + STARTED + "), " + SNAP_NOW + ")",
+                "implies(old(" + STARTED + "), G.nsnap == old(G.nsnap) and same_threads(self._threads, old(self._threads)))",
                 "implies(old(" + STARTED + "), " + ORIG + " and self.testsRun == old(self.testsRun) and G.tsu == old(G.tsu))",
                 "implies(not old(" + STARTED + "), G.stdout == old(G.stdout) and G.stderr == old(G.stderr))",
                 "implies(not old(" + STARTED + "), self.testsRun == old(self.testsRun) + count(test))",
@@ -311,9 +320,15 @@ ADD_SKIP = method({
 STOP_TEST = method({
     'property': ['C04', 'C05', 'C13', 'C18', 'C19'], 'params': {'test': 'Test'},
     'requires': [STARTED, SOK, "G.tsu"],
-    'modifies': ['self._test_state', 'G.tsu', 'G.stdout', 'G.stderr', 'G.cap_out', 'G.cap_err', 'G.hookexc'],
+    'modifies': ['self._test_state', 'G.tsu', 'G.stdout', 'G.stderr', 'G.cap_out', 'G.cap_err', 'G.hookexc', 'G.nsnap', 'G.thr_last',
+                 'G.nthr'],
     'locals': {'new_threads': 'List[Thread]'},
     'ensures': ["not " + STARTED, "not G.tsu", "G.hookexc == old(G.hookexc)",
+                # C19, completeness: the end snapshot is taken in this call, and the report is made exactly when it holds a
+                # thread that is alive, was not in the start snapshot and matches no ignore pattern (and then once)
+                "G.nsnap == old(G.nsnap) + 1",
+                "G.nthr == old(G.nthr) + ite(exists(x, Thread, x in G.thr_last and is_alive(x) and x not in self._threads"
+                " and not ignored(self, x)), 1, 0)",
                 ORIG,                                            # C13/C18: between tests the std streams are the originals
                 LISTS_SAME, "self.shouldStop == old(self.shouldStop)", "self.testsRun == old(self.testsRun)"],
     # only from per-test layer hooks: the streams are restored before the hooks run (C18)
@@ -324,6 +339,7 @@ STOP_TEST = method({
     'callsites': {
         # C19: reported iff non-empty, and exactly: alive, not in the start snapshot, matching no ignore pattern
         'self.options.output.test_threads': [
+            "_arg0 == test", "same_threads(_arg1, new_threads)", "same_threads(_it2, G.thr_last)",
             "len(new_threads) > 0",
             "forall(x, Thread, iff(x in new_threads, x in _it2 and is_alive(x) and x not in self._threads and not ignored(self, x)))",
         ],
@@ -477,7 +493,7 @@ CASE_RUN = {
     'modifies': ['result.testsRun', 'result.failures', 'result.errors', 'result.skipped', 'result.unexpectedSuccesses',
                  'result.expectedFailures', 'result.shouldStop', 'result._stdout_buffer', 'result._stderr_buffer',
                  'result._test_state', 'result._threads', 'result._start_time',
-                 'G.stdout', 'G.stderr', 'G.tsu', 'G.bad', 'G.cap_out', 'G.cap_err', 'G.hookexc'],
+                 'G.stdout', 'G.stderr', 'G.tsu', 'G.bad', 'G.cap_out', 'G.cap_err', 'G.hookexc', 'G.nsnap', 'G.thr_last', 'G.nthr'],
     'ensures': [R(c) for c in CI] + IDLE + [
         "not G.hookexc",
         BADSUM_R, "G.bad >= old(G.bad)",
@@ -526,6 +542,29 @@ def call_protocol(E, st, node, args, kws, k):
     return E.call_contract('unittest_protocol.case_run', None, [args[0], st.lookup('test')], {}, st, node, k)
 call_protocol.__name__ = 'test(result) = the unittest call protocol (contract of unittest_protocol.case_run)'
 call_protocol.modifies = [m for m in CASE_RUN['modifies']]
+
+
+def enumerate_rule(E, st, node, args, kws, k):
+    L = st.alloc(fresh_hlist(('obj', 'Thread'), 'threads_now', st))
+    st.ghost['thr_last'] = L
+    st.ghost['nsnap'] = VInt(st.ghost['nsnap'].z + 1)
+    return k(st, L)
+enumerate_rule.__name__ = 'threadsupport.enumerate(): the threads running now -- any list (ghosts G.thr_last, G.nsnap += 1); its own contract: C19 sidecar'
+enumerate_rule.modifies = ['G.thr_last', 'G.nsnap']
+
+
+def test_threads_rule(E, st, node, args, kws, k):
+    st.ghost['nthr'] = VInt(st.ghost['nthr'].z + 1)
+    return k(st, NONE)
+test_threads_rule.__name__ = 'output.test_threads(test, threads): the "left new threads behind" report (ghost G.nthr += 1)'
+test_threads_rule.modifies = ['G.nthr']
+
+
+def _same_threads(E, st, a, b):
+    """two thread lists with the same length and the same elements, position by position"""
+    ha, hb = st.heap[a.rid], st.heap[b.rid]
+    i = z3.Int(fresh_name('q'))
+    return VBool(z3.And(ha.n == hb.n, z3.ForAll([i], z3.Implies(z3.And(0 <= i, i < ha.n), z3.Select(ha.arr, i) == z3.Select(hb.arr, i)))))
 
 
 def _suite_item(E, st, s, i):
@@ -701,7 +740,7 @@ def register(E):
         'self.stop': do_stop,
         'test.countTestCases': count_rule,
         'test.__dict__.copy': 'fresh:Any', 'test.__dict__.clear': 'NOEFFECT', 'test.__dict__.update': 'NOEFFECT',
-        'threadsupport.enumerate': 'fresh:List[Thread]',
+        'threadsupport.enumerate': enumerate_rule, 'self.options.output.test_threads': test_threads_rule,
         'zope.testrunner.debug.post_mortem': {'kind': 'noeffect', 'raises': ['EndRun'], 'never_returns': True},
         'report': 'NOEFFECT',
         'gc.get_debug': 'fresh:int', 'gc.set_debug': 'NOEFFECT', 'gc.get_referents': 'fresh:Any',
@@ -717,7 +756,7 @@ def register(E):
     E.axioms.append(z3.ForAll([z3.Const('t', Test)], count_f(z3.Const('t', Test)) >= 0))
     E.iter_sorts['Suite'] = lambda eng, st, o: st.alloc(HList(('obj', 'Test'), suite_arr(o.z), suite_len(o.z)))
     E.axioms.append(z3.ForAll([z3.Const('s', usort('Suite'))], suite_len(z3.Const('s', usort('Suite'))) >= 0))
-    E.specfuncs.update({'isbuf': _isbuf, 'count': _count, 'is_alive': _is_alive, 'ignored': _ignored})
+    E.specfuncs.update({'isbuf': _isbuf, 'count': _count, 'is_alive': _is_alive, 'ignored': _ignored, 'same_threads': _same_threads})
     E.assumptions += [
         "T4: unittest.TestResult base methods append exactly one entry to the respective list / increment testsRun; stop() sets shouldStop",
         "T4: a stream has getvalue() iff it is one of the runner's capture buffers (isbuf); the original std streams may or may not",
